@@ -622,6 +622,10 @@ func ruleAxisSym(w *World, r *Report, fn string) {
 		}
 		if swapXY(sx) == sy {
 			r.add("AXISSYM", key, pos, Discharged, "x and y outputs are computed by isomorphic expression graphs")
+		} else if (strings.Contains(sx, "call:"+modPath) || strings.Contains(sy, "call:"+modPath)) && sameModuleCalls(sx, sy) {
+			// results of a module helper that returns several values (a fallback path, a
+			// shared range function): the comparison would have to go into the helper
+			r.add("AXISSYM", key, pos, Undecided, "x and y come out of a helper whose results are not followed: x = "+abbrev(sx, 200)+"  vs  y = "+abbrev(sy, 200))
 		} else {
 			r.add("AXISSYM", key, pos, Violated, "x and y are computed differently: x = "+abbrev(sx, 300)+"  vs  y = "+abbrev(sy, 300))
 		}
@@ -840,4 +844,49 @@ func runningMaxOfOtherAxis(f *ssa.Function, loop *sliceRange, ph *ssa.Phi, ke *K
 		}
 	}
 	return false
+}
+
+// sameModuleCalls: both canonical forms go through the same module helpers the
+// same number of times, with the same arguments (they differ only in which
+// result of a helper they take, or in what surrounds the calls).
+func sameModuleCalls(a, b string) bool {
+	calls := func(s string) []string {
+		var out []string
+		for i := 0; ; {
+			j := strings.Index(s[i:], "call:"+modPath)
+			if j < 0 {
+				break
+			}
+			j += i
+			// up to the matching parenthesis
+			depth, k := 0, j
+			for ; k < len(s); k++ {
+				if s[k] == '(' {
+					depth++
+				} else if s[k] == ')' {
+					depth--
+					if depth == 0 {
+						break
+					}
+				}
+			}
+			if k >= len(s) {
+				k = len(s) - 1
+			}
+			out = append(out, s[j:k+1])
+			i = k + 1
+		}
+		sort.Strings(out)
+		return out
+	}
+	ca, cb := calls(a), calls(b)
+	if len(ca) != len(cb) {
+		return false
+	}
+	for i := range ca {
+		if ca[i] != cb[i] {
+			return false
+		}
+	}
+	return true
 }
